@@ -704,6 +704,30 @@ def check_dataset(case, root, pq, ctx=None, verbose=False):
                 model = [model[0], [[rid, [[c, L.num_norm(v)] for c, v in cells]] for rid, cells in model[1]]]
                 impl = [impl[0], [[rid, [[c, L.num_norm(v)] for c, v in cells]] for rid, cells in impl[1]]]
             ctx.correspondence("read_model ~ ParquetFile(dir).to_pandas() partition columns", _replayable(case), model, impl)
+        # ---- the same directory WITHOUT its summary files: opened through the file listing (the machinery of C14), the
+        #      rows and (hive) the partition cells must be the same
+        if not problems and alive:
+            for junk in ("_metadata", "_common_metadata"):
+                try:
+                    os.unlink(os.path.join(root, junk))
+                except OSError:
+                    pass
+            try:
+                pf2 = ParquetFile(root)
+                out2 = pf2.to_pandas()
+                ids2 = [int(x) for x in out2["id"]]
+                if sorted(ids2) != sorted(alive):
+                    problems.append("without _metadata: row ids %r, expected %r" % (sorted(ids2)[:20], sorted(alive)[:20]))
+                elif hive:
+                    for pos, rid in enumerate(ids2):
+                        cells2 = {c: L.canon(out2[c].iloc[pos]) for c in pcols if c in out2.columns}
+                        if cells2 != by_id[rid]:
+                            problems.append("without _metadata: row %d has partition cells %r, with it %r" % (rid, cells2, by_id[rid]))
+                            break
+            except Exception as e:      # noqa
+                problems.append("opening the directory without _metadata raised %s: %s" % (type(e).__name__, str(e)[:150]))
+            if problems:
+                cls_extra["stage"] = "no-summary"
     elif ctx is not None:
         try:
             pf = ParquetFile(root)
